@@ -393,6 +393,28 @@ class Body:
         return self._defs
 
     @property
+    def mut_users(self):
+        """local -> [(block, call terminator)] of calls that receive `&mut local` (or `&mut local.f`)"""
+        if getattr(self, "_mut_users", None) is None:
+            refs = {}
+            for bi, si, s in self.stmts():
+                if s["k"] == "assign" and s["r"]["k"] == "ref" and s["r"].get("mut") and not s["p"]["pr"]:
+                    if not any(e[0] == "deref" for e in s["r"]["p"]["pr"]):
+                        refs.setdefault(s["p"]["l"], set()).add(s["r"]["p"]["l"])
+                    else:
+                        # reborrow `&mut *_x`: alias of what _x points to
+                        refs.setdefault(s["p"]["l"], set()).update(refs.get(s["r"]["p"]["l"], set()))
+            mu = {}
+            for bi, t in self.calls():
+                for a in t["args"]:
+                    l = op_local(a)
+                    if l is not None and l in refs:
+                        for tgt in refs[l]:
+                            mu.setdefault(tgt, []).append((bi, t))
+            self._mut_users = mu
+        return self._mut_users
+
+    @property
     def pdefs(self):
         """local -> partial stores `_l.f = v` (no deref in the place)"""
         self.defs
@@ -736,7 +758,7 @@ def transparent_args(callee):
 
 
 def origins(body, op_or_local, transparent=transparent_args, max_steps=6000, through_agg=False,
-            facts=None):
+            facts=None, record_calls=False, through_mut=False, follow_discr=False):
     """Backward slice: set of source descriptors a value may come from.
 
     descriptors:
@@ -801,6 +823,15 @@ def origins(body, op_or_local, transparent=transparent_args, max_steps=6000, thr
                     work.append((r["p"]["l"], _names(r["p"]) + rest))
                 else:
                     res.add(("other", bi, si, rest))
+        if through_mut:
+            # calls that receive `&mut l` may write it: they contribute their other arguments
+            for mbi, mt in body.mut_users.get(l, []):
+                res.add(("call", callee_of(mt) or "?", mbi, ("&mut",)))
+                for a in mt["args"]:
+                    if a["k"] == "const":
+                        push_op(a)
+                    elif (a["p"]["l"], ()) not in seen:
+                        work.append((a["p"]["l"], ()))
         if not ds:
             if not (1 <= l <= body.argc) and not pds:
                 res.add(("undef", l, names))
@@ -814,6 +845,10 @@ def origins(body, op_or_local, transparent=transparent_args, max_steps=6000, thr
                     for i in idxs:
                         if i < len(d["args"]):
                             push_op(d["args"][i], names)
+                    if record_calls:
+                        res.add(("call", c or "?", bi, names))
+                    if c is None:
+                        push_op(d["f"], names)
                 else:
                     res.add(("call", c or "?", bi, names))
                 continue
@@ -823,6 +858,8 @@ def origins(body, op_or_local, transparent=transparent_args, max_steps=6000, thr
                 push_op(r["o"], names)
             elif k in ("ref", "copyforderef", "rawptr"):
                 work.append((r["p"]["l"], _names(r["p"]) + names))
+            elif k == "discr" and follow_discr:
+                work.append((r["p"]["l"], _names(r["p"]) + ("<discr>",) + names))
             elif k == "agg":
                 if through_agg:
                     for o in r["ops"]:
